@@ -20,6 +20,7 @@ fn main() {
             let suite = args[2].as_str();
             let f: fn(&str) -> String = match suite {
                 "panic" => suites::panic::run,
+                "curve" => suites::curve::run,
                 _ => {
                     eprintln!("unknown suite {}", suite);
                     std::process::exit(2);
